@@ -285,6 +285,12 @@ func init() {
 		},
 		"Itoa":         func(fr *frame, a []value) value { return strconv.Itoa(a[0].(int)) },
 		"KnownFinding": func(fr *frame, a []value) value { return LiveFindings[str(a[0])] },
+		"Digest": func(fr *frame, a []value) value {
+			p := fr.i.p
+			t, _ := p.termOf(a[1])
+			p.digests = append(p.digests, digestRec{str(a[0]), t})
+			return nil
+		},
 	}
 }
 
